@@ -181,5 +181,398 @@ Section HeapP6.
         pose proof (spec_cells_below hh1 sp' P2 P4) as Hb. unfold below in Hb. rewrite Forall_forall in Hb. specialize (Hb a Ha).
         intros H. repeat (destruct H as [H|H]; [lia|]). exact H.
     Qed.
+
+    Lemma anc_fold h7 m l : h_next h0 <=p h_next h7 -> forall (acc : heap * hcirc) (pf : circ),
+      prel h7 (fst acc) (snd acc) pf ->
+      prel h7 (fst (fold_left (h_anc_step o m) l acc)) (snd (fold_left (h_anc_step o m) l acc)) (fold_left (fanc m) l pf) /\
+      (l <> [] -> Forall (fun a => h_next h7 <=p a) (priv (snd (fold_left (h_anc_step o m) l acc))) /\
+                  NoDup (priv (snd (fold_left (h_anc_step o m) l acc)))).
+    Proof.
+      intros Hh7. induction l as [|x l IH]; intros acc pf H; [split; [exact H|congruence]|].
+      cbn [fold_left]. destruct (anc_step h7 m acc pf x Hh7 H) as (H1 & H2).
+      destruct (IH _ _ H1) as (J1 & J2). split; [exact J1|]. intros _.
+      destruct l as [|y l]; [exact H2|]. apply J2. discriminate.
+    Qed.
+
+    Lemma nodup6 (a1 a2 a3 a4 a5 a6 : addr) : NoDup [a1; a2; a3; a4; a5; a6] ->
+      a1 <> a2 /\ a1 <> a3 /\ a4 <> a2 /\ a4 <> a3 /\ a5 <> a2 /\ a5 <> a3 /\ a6 <> a2 /\ a6 <> a3 /\ a2 <> a3.
+    Proof.
+      intros H. inversion H as [|? ? N1 H1]; subst. inversion H1 as [|? ? N2 H2]; subst.
+      inversion H2 as [|? ? N3 H3]; subst. simpl in *. repeat split; intros E; subst; tauto.
+    Qed.
+
+    (* the loop that records the heralds of the added circuit in the parent's dicts *)
+    Lemma her_fold h7 m pp (l : dict) :
+      Forall (fun a => h_next h7 <=p a) (priv pp) -> NoDup (priv pp) ->
+      forall hh pf, prel h7 hh pp pf ->
+      prel h7 (fold_left (h_her_step m pp) l hh) pp (fold_left (fher m) l pf).
+    Proof.
+      intros Hfr Hnd. induction l as [|kv l IH]; intros hh pf H; [exact H|]. cbn [fold_left]. apply IH. clear IH.
+      destruct H as (Fr & Hw & Hc & Hs & Ab & Dj & Fz).
+      destruct (cwf_fields hh pp Hc) as (L1 & L2 & L3 & L4 & L5 & L6).
+      unfold priv in Hnd. destruct (nodup6 _ _ _ _ _ _ Hnd) as (D1 & D2 & D3 & D4 & D5 & D6 & D7 & D8 & D9).
+      unfold h_her_step.
+      set (k := fst kv + m). set (v := snd kv).
+      set (h1 := h_dset hh (hc_in pp) k v). set (h2 := h_dset h1 (hc_out pp) k v).
+      assert (Other : forall b, b <> hc_in pp -> b <> hc_out pp -> hget h2 b = hget hh b).
+      { intros b B1 B2. unfold h2, h1. rewrite !hget_dset_other by assumption. reflexivity. }
+      assert (Fin : h_next h7 <=p hc_in pp /\ h_next h7 <=p hc_out pp).
+      { rewrite Forall_forall in Hfr. split; apply Hfr; unfold priv; simpl; auto. }
+      split.
+      { unfold h2, h1, h_dset. apply hframe_write; [apply hframe_write; [exact Fr|left; apply Fin]|left; apply Fin]. }
+      split.
+      { unfold h2, h1, h_dset. apply hwf_write; [apply hwf_write; [exact Hw|exact L2|apply Forall_nil]|exact L3|apply Forall_nil]. }
+      split; [exact Hc|]. split; [exact Hs|].
+      assert (Cells : forall b, In b (spec_cells hh (rd_list hh (hc_spec pp))) -> hget h2 b = hget hh b).
+      { intros b Hb. destruct (Fz b Hb) as (_ & Np). apply Other; intros ->; apply Np; unfold priv; simpl; auto. }
+      destruct (abs_list_cells hh h2 _ Cells) as (A1 & A2).
+      assert (Rl : rd_list h2 (hc_spec pp) = rd_list hh (hc_spec pp)).
+      { unfold rd_list. rewrite Other by assumption. reflexivity. }
+      split.
+      { rewrite <- Ab. unfold fher, abs_circ. cbn [c_n c_spec c_in c_out c_xin c_xout c_int]. rewrite Rl, A1.
+        unfold h2, h1. rewrite !rd_dict_dset.
+        rewrite Pos.eqb_refl.
+        rewrite (proj2 (Pos.eqb_neq (hc_in pp) (hc_out pp))) by exact D9.
+        rewrite (proj2 (Pos.eqb_neq (hc_out pp) (hc_in pp))) by congruence.
+        rewrite Pos.eqb_refl.
+        rewrite (proj2 (Pos.eqb_neq (hc_xin pp) (hc_out pp))) by exact D4.
+        rewrite (proj2 (Pos.eqb_neq (hc_xin pp) (hc_in pp))) by exact D3.
+        rewrite (proj2 (Pos.eqb_neq (hc_xout pp) (hc_out pp))) by exact D6.
+        rewrite (proj2 (Pos.eqb_neq (hc_xout pp) (hc_in pp))) by exact D5.
+        unfold rd_nats. fold h1 h2. rewrite Other by assumption. reflexivity. }
+      split; [exact Dj|].
+      intros a Ha. rewrite Rl, A2 in Ha. exact (Fz a Ha).
+    Qed.
+
+    Lemma is_group_depth (h : heap) a : is_group (abs_comp 1 h a) = is_group (abs_comp 2 h a).
+    Proof. cbn [abs_comp]. destruct (hget h a) as [[[| | | | | |]| | |]|]; reflexivity. Qed.
+
+    Lemma set_spec_eta (w : circ) : set_spec w (c_spec w) = w.
+    Proof. destruct w; reflexivity. Qed.
+
+    (* ---------------- Circuit.add ---------------- *)
+    Lemma h_add_post mode g :
+      upd_post p h0 c (fun cf => op_add o cf (abs_circ h0 s) mode g)
+               (fst (h_add o h0 c s mode g)) (snd (h_add o h0 c s mode g)).
+    Proof.
+      destruct (inv_cwf _ I id c Hin) as (Hc0 & Hsc). destruct (inv_cwf _ I sid s Hsin) as (Hcs & Hss).
+      cbn [hw_heap] in Hc0, Hcs.
+      pose proof (inv_flat _ I sid s Hsin) as Fls. cbn [hw_heap] in Fls.
+      set (sf := abs_circ h0 s) in *. set (cf := abs_circ h0 c).
+      unfold h_add. cbv zeta.
+      match goal with |- context [match ?t with Ok _ => _ | Err _ => _ end] => destruct t as [m|x] eqn:E1 end; cbn [fst snd].
+      2:{ apply (err_post p h0 c I). rewrite op_add_unfold, mode_ok_n_eq. cbn [abs_circ c_int]. rewrite E1. reflexivity. }
+      (* the two copies *)
+      destruct (h_copy_circ h0 s) as [h1 cc0] eqn:Ecp.
+      destruct (h_copy_circ_post h0 s h1 cc0 Hw0 Hcs Ecp) as (F1 & W1 & C1 & A1 & Fr1 & ND1 & Sp1 & RL1 & N1).
+      assert (Fl1 : flat_spec (abs_list h1 (rd_list h1 (hc_spec cc0)))).
+      { change (flat_spec (c_spec (abs_circ h1 cc0))). rewrite A1. exact Fls. }
+      destruct (h_unpack_groups h1 cc0) as [h2 cc] eqn:Eup.
+      destruct (h_unpack_groups_local h1 cc0 h2 cc W1 C1 Sp1 Fl1 Eup)
+        as (F2 & W2 & C2 & Sp2 & A2 & I1 & I2 & I3 & I4 & I5 & I6 & I7).
+      assert (F02 : hframe [] h0 h2) by (eapply hframe_trans; eassumption).
+      assert (Ecc : abs_circ h2 cc = unpack_groups sf) by (rewrite A2, A1; reflexivity).
+      assert (Egrp : rd_dict h2 (hc_in cc) = c_in sf).
+      { change (c_in (abs_circ h2 cc) = c_in sf). rewrite Ecc. reflexivity. }
+      rewrite Egrp.
+      set (grp := g || negb (length (c_in sf) =? 0)).
+      set (w0f := if grp then unpack_groups sf else sf).
+      set (ls := rd_list h0 (hc_spec s)) in *.
+      assert (Bls : below h0 ls) by apply (rd_list_below h0 _ Hw0).
+      assert (Fzs : forall a, In a (spec_cells h0 ls) -> ~ owned p a /\ a <p h_next h0).
+      { intros a Ha. split; [exact (inv_frozen _ I sid s Hsin a Ha)|].
+        pose proof (spec_cells_below h0 ls Hw0 Bls) as Hb. unfold below in Hb. rewrite Forall_forall in Hb. exact (Hb a Ha). }
+      destruct (if grp then (h2, cc) else h_copy_circ h2 s) as [h3 w] eqn:Ew.
+      assert (W3 : hframe [] h0 h3 /\ hwf h3 /\ cwf h3 w /\ sep_circ w /\ abs_circ h3 w = w0f /\
+                   Forall (fun a => h_next h0 <=p a) (priv w) /\
+                   (forall a, In a (spec_cells h3 (rd_list h3 (hc_spec w))) -> ~ owned p a /\ a <p h_next h0)).
+      { unfold w0f. destruct grp.
+        - injection Ew as <- <-. split; [exact F02|]. split; [exact W2|]. split; [exact C2|]. split; [exact Sp2|].
+          split; [exact Ecc|]. split.
+          + rewrite Forall_forall in Fr1. destruct F1 as (F1 & _).
+            unfold priv. rewrite I1, I2, I3, I4.
+            repeat constructor; try lia; apply Fr1; unfold priv; simpl; auto.
+          + intros a Ha. apply I7 in Ha. rewrite RL1 in Ha.
+            rewrite (proj2 (abs_list_stable h0 h1 ls Hw0 (hframe_agree _ _ F1) Bls)) in Ha. exact (Fzs a Ha).
+        - assert (Cs2 : cwf h2 s) by (eapply cwf_mono; [apply F02|exact Hcs]).
+          destruct (h_copy_circ_post h2 s h3 w W2 Cs2 Ew) as (G1 & G2 & G3 & G4 & G5 & G6 & G7 & G8 & G9).
+          split; [eapply hframe_trans; eassumption|]. split; [exact G2|]. split; [exact G3|]. split; [exact G7|].
+          split; [rewrite G4; apply (abs_circ_stable h0 h2 s Hw0 (hframe_agree _ _ F02) Hcs)|]. split.
+          + eapply Forall_impl; [|exact G5]. intros a Ha. cbv beta in Ha |- *. destruct F02 as (F02 & _). lia.
+          + intros a Ha. rewrite G8 in Ha.
+            destruct (cwf_fields h0 s Hcs) as (L1 & _).
+            rewrite (rd_list_agree h0 h2 _ (hframe_agree _ _ F02) L1) in Ha. fold ls in Ha.
+            assert (F03 : hframe [] h0 h3) by (eapply hframe_trans; eassumption).
+            rewrite (proj2 (abs_list_stable h0 h3 ls Hw0 (hframe_agree _ _ F03) Bls)) in Ha. exact (Fzs a Ha). }
+      destruct W3 as (F03 & W3 & C3 & Sp3 & A3 & Fr3 & Fz3).
+      assert (En : hc_n w = c_n w0f) by (rewrite <- A3; reflexivity).
+      assert (Ein : rd_dict h3 (hc_in w) = c_in w0f) by (rewrite <- A3; reflexivity).
+      assert (Eout : rd_dict h3 (hc_out w) = c_out w0f) by (rewrite <- A3; reflexivity).
+      rewrite En, Ein, Eout.
+      match goal with |- context [if ?b then _ else _] => destruct b eqn:E2 end; cbn [fst snd].
+      { split; [apply hframe_nil; exact F03|]. split; [exact W3|]. split; [|exact F03].
+        rewrite op_add_unfold, mode_ok_n_eq. cbn [abs_circ c_int c_n]. rewrite E1. cbv zeta. fold sf grp w0f.
+        rewrite E2. reflexivity. }
+      assert (EF : forall r, add_body cf w0f m grp = r -> op_add o cf sf mode g = r).
+      { intros r Hr. rewrite op_add_unfold. unfold cf. rewrite mode_ok_n_eq. cbn [abs_circ c_int c_n]. rewrite E1. cbv zeta.
+        fold sf grp w0f. rewrite E2. exact Hr. }
+      fold (add_swaps w0f).
+      (* spec.append(ModeSwaps(swaps)) on the work copy *)
+      set (h4 := if list_eqb (dkeys (add_swaps w0f)) (dvals (add_swaps w0f)) then h3
+                 else let '(hh, a) := halloc h3 (CComp (HSwaps (add_swaps w0f))) in h_append hh (hc_spec w) a).
+      assert (Wsp : forall a, In a (priv w) -> h_next h0 <=p a) by (rewrite Forall_forall in Fr3; exact Fr3).
+      assert (W4 : hframe [] h0 h4 /\ hwf h4 /\ cwf h4 w /\ abs_circ h4 w = set_spec w0f (add_sp0 w0f) /\
+                   (forall a, In a (spec_cells h4 (rd_list h4 (hc_spec w))) -> ~ owned p a)).
+      { unfold h4, add_sp0. destruct (list_eqb _ _).
+        - split; [exact F03|]. split; [exact W3|]. split; [exact C3|]. split; [rewrite set_spec_eta; exact A3|].
+          intros a Ha. exact (proj1 (Fz3 a Ha)).
+        - rewrite (halloc_eta h3). cbv iota beta.
+          destruct (append_entry_gen h3 w (CComp (HSwaps (add_swaps w0f))) W3 C3 Sp3) as (J1 & J2 & J3 & J4 & J5).
+          + intros a Ha E. specialize (Wsp (hc_spec w)). destruct (Fz3 a Ha) as (_ & Hlt). rewrite E in Hlt.
+            assert (h_next h0 <=p hc_spec w) by (apply Wsp; unfold priv; simpl; auto). lia.
+          + apply Forall_nil.
+          + intros b Hb E. cbn [comp_cells] in Hb. rewrite hget_alloc, Pos.eqb_refl in Hb. destruct Hb as [<-|[]].
+            destruct (cwf_fields h3 w C3) as (L1 & _). lia.
+          + cbv zeta in J1, J2, J3, J4, J5.
+            split.
+            { unfold h_append. apply hframe_write; [apply hframe_alloc; exact F03|left]. apply Wsp. unfold priv; simpl; auto. }
+            split; [exact J1|]. split; [eapply cwf_mono; [|exact C3]; rewrite J2; lia|]. split.
+            { rewrite J3, A3. cbn [abs_comp]. rewrite hget_alloc, Pos.eqb_refl. reflexivity. }
+            intros a Ha. rewrite J4 in Ha. apply in_app_or in Ha as [Ha|Ha]; [exact (proj1 (Fz3 a Ha))|].
+            cbn [comp_cells] in Ha. rewrite hget_alloc, Pos.eqb_refl in Ha. destruct Ha as [<-|[]].
+            intros Ho. pose proof (owned_lt _ Ho). destruct F03 as (F03 & _). lia. }
+      clearbody h4. destruct W4 as (F04 & W4 & C4 & A4 & Fz4).
+      destruct (cwf_fields h4 w C4) as (L41 & L42 & L43 & L44 & L45 & L46).
+      (* circuit.__out_heralds = copy(circuit.__in_heralds); the same for the external dicts *)
+      destruct (halloc h4 (CDict (rd_dict h4 (hc_in w)))) as [h5 o'] eqn:E5.
+      destruct (halloc_inv _ _ _ _ [] h0 E5 W4 (Forall_nil _) F04) as (-> & N5 & W5 & F05 & G5 & S5).
+      destruct (halloc h5 (CDict (rd_dict h5 (hc_xin w)))) as [h6 xo'] eqn:E6.
+      destruct (halloc_inv _ _ _ _ [] h0 E6 W5 (Forall_nil _) F05) as (-> & N6 & W6 & F06 & G6 & S6).
+      set (w1 := mkHC (hc_n w) (hc_spec w) (hc_in w) (h_next h4) (hc_xin w) (h_next h5) (hc_int w)).
+      assert (Ag46 : agree h4 h6) by (apply hframe_agree; eapply hframe_trans; eassumption).
+      assert (R0 : wrel h6 w1 (rd_list h6 (hc_spec w1)) (add_w1 w0f) (add_sp0 w0f)).
+      { split; [exact F06|]. split; [exact W6|]. split.
+        { unfold cwf, below, priv, w1. cbn [hc_spec hc_in hc_out hc_xin hc_xout hc_int]. repeat constructor; lia. }
+        split; [apply rd_list_below; exact W6|].
+        assert (Rl : rd_list h6 (hc_spec w1) = rd_list h4 (hc_spec w)) by (apply (rd_list_agree h4 h6 _ Ag46 L41)).
+        split.
+        { unfold book, bookf, w1, add_w1. cbn [hc_n hc_spec hc_in hc_out hc_xin hc_xout hc_int c_n c_in c_out c_xin c_xout c_int].
+          unfold rd_dict at 2 4. rewrite G6. rewrite (hget_frame h5 h6 (h_next h4) S6) by lia. rewrite G5.
+          rewrite (rd_dict_agree h4 h5 _ (hframe_agree _ _ S5) L44).
+          rewrite !(rd_dict_agree h4 h6 _ Ag46), (rd_nats_agree h4 h6 _ Ag46) by assumption.
+          change (bookf (abs_circ h4 w) = bookf (add_w1 w0f)) || idtac.
+          assert (Bk : book h4 w = bookf (set_spec w0f (add_sp0 w0f))) by (rewrite <- A4; reflexivity).
+          unfold book, bookf, set_spec in Bk. cbn [c_n c_in c_out c_xin c_xout c_int] in Bk.
+          injection Bk as B1 B2 B3 B4 B5 B6. rewrite B1, B2, B4, B6. reflexivity. }
+        split.
+        { rewrite Rl. rewrite (proj1 (abs_list_stable h4 h6 _ W4 Ag46 (rd_list_below h4 _ W4))).
+          change (c_spec (abs_circ h4 w) = add_sp0 w0f). rewrite A4. reflexivity. }
+        intros a Ha. rewrite Rl in Ha. rewrite (proj2 (abs_list_stable h4 h6 _ W4 Ag46 (rd_list_below h4 _ W4))) in Ha.
+        exact (Fz4 a Ha). }
+      (* the pass-through loop *)
+      fold w1.
+      pose proof (fold_sim (fun (acc : heap * hcirc * list addr) (accf : circ * list comp) =>
+                              wrel (fst (fst acc)) (snd (fst acc)) (snd acc) (fst accf) (snd accf))
+                           (h_pass_step o m) (fpass m) (sort_nat (rd_nats h0 (hc_int c)))
+                           (fun a b x => pass_step m a b x)
+                           (h6, w1, rd_list h6 (hc_spec w1)) (add_w1 w0f, add_sp0 w0f) R0) as Hp.
+      destruct (fold_left (h_pass_step o m) (sort_nat (rd_nats h0 (hc_int c))) (h6, w1, rd_list h6 (hc_spec w1)))
+        as [[h7 w2] sp] eqn:Ep.
+      destruct (fold_left (fpass m) (sort_nat (rd_nats h0 (hc_int c))) (add_w1 w0f, add_sp0 w0f)) as [w2f spf] eqn:Epf.
+      cbn [fst snd] in Hp. destruct Hp as (F07 & W7 & C7 & Bsp & Bk7 & Asp & Fzsp).
+      unfold book, bookf in Bk7. injection Bk7 as K1 K2 K3 K4 K5 K6.
+      assert (Hh7 : h_next h0 <=p h_next h7) by apply F07.
+      (* the parent: new ancilla modes, then the herald records *)
+      rewrite K2.
+      assert (P7 : prel h7 h7 c cf).
+      { split; [apply hframe_refl|]. split; [exact W7|]. split; [eapply cwf_mono; [|exact Hc0]; exact Hh7|].
+        split; [exact Hsc|]. split; [apply (abs_circ_stable h0 h7 c Hw0 (hframe_agree _ _ F07) Hc0)|].
+        split; [left; reflexivity|].
+        intros a Ha. destruct (cwf_fields h0 c Hc0) as (L1 & _).
+        rewrite (rd_list_agree h0 h7 _ (hframe_agree _ _ F07) L1) in Ha.
+        rewrite (proj2 (abs_list_stable h0 h7 _ Hw0 (hframe_agree _ _ F07) (rd_list_below h0 _ Hw0))) in Ha.
+        pose proof (inv_frozen _ I id c Hin a Ha) as Hno. split; [exact Hno|].
+        intros Hp'. apply Hno. exists id, c. split; assumption. }
+      destruct (anc_fold h7 m (sort_nat (dkeys (c_in w2f))) Hh7 (h7, c) cf P7) as (P8 & Fresh8).
+      destruct (fold_left (h_anc_step o m) (sort_nat (dkeys (c_in w2f))) (h7, c)) as [h8 c'] eqn:Ea.
+      cbn [fst snd] in P8, Fresh8.
+      set (c1f := fold_left (fanc m) (sort_nat (dkeys (c_in w2f))) cf) in *.
+      assert (Rin8 : rd_dict h8 (hc_in w2) = c_in w2f).
+      { destruct (cwf_fields h7 w2 C7) as (_ & L2 & _).
+        rewrite (rd_dict_agree h7 h8 _ (hframe_agree _ _ (proj1 P8)) L2). exact K2. }
+      rewrite Rin8.
+      set (h9 := fold_left (h_her_step m c') (c_in w2f) h8).
+      set (c2f := fold_left (fher m) (c_in w2f) c1f).
+      assert (P9 : prel h7 h9 c' c2f).
+      { unfold h9, c2f. destruct (c_in w2f) as [|kv0 hl] eqn:Ehl; [exact P8|].
+        destruct Fresh8 as (Fr8 & Nd8).
+        { intros Hnil. apply sort_nat_nil in Hnil. discriminate. }
+        apply her_fold; assumption. }
+      clearbody h9. destruct P9 as (F79 & W9 & C9 & Sp9 & A9 & Dj9 & Fz9).
+      pose proof (hframe_agree _ _ F79) as Ag79.
+      (* add_modes_to_circuit_spec(spec, mode) *)
+      assert (Bsp9 : below h9 sp) by (eapply below_mono; [apply F79|exact Bsp]).
+      destruct (hmap (h_shift 2 m) h9 sp) as [h10 add_cs] eqn:Es.
+      destruct (h_shift_list_post m sp h9 h10 add_cs W9 Bsp9 Es) as (Q1 & Q2 & Q3 & Q4 & Q5 & Q6 & Q7).
+      pose proof (hframe_agree _ _ Q1) as Ag910.
+      assert (Asp9 : abs_list h9 sp = spf) by (rewrite (proj1 (abs_list_stable h7 h9 sp W7 Ag79 Bsp)); exact Asp).
+      assert (Csp9 : spec_cells h9 sp = spec_cells h7 sp) by apply (proj2 (abs_list_stable h7 h9 sp W7 Ag79 Bsp)).
+      assert (Aadd : abs_list h10 add_cs = shift_spec m spf).
+      { unfold abs_list, shift_spec in *. rewrite Q4, Asp9. reflexivity. }
+      assert (F010 : hframe [] h0 h10).
+      { eapply hframe_trans; [exact F07|]. eapply hframe_trans; [exact F79|exact Q1]. }
+      assert (C10 : cwf h10 c') by (eapply cwf_mono; [apply Q1|exact C9]).
+      destruct (abs_circ_stable h9 h10 c' W9 Ag910 C9) as (A10 & R10).
+      assert (Rl10 : rd_list h10 (hc_spec c') = rd_list h9 (hc_spec c')).
+      { destruct (cwf_fields h9 c' C9) as (L1 & _). apply (rd_list_agree h9 h10 _ Ag910 L1). }
+      assert (Fz10 : forall a, In a (spec_cells h10 (rd_list h10 (hc_spec c'))) -> ~ owned p a /\ ~ In a (priv c')).
+      { intros a Ha. unfold reach in R10. apply app_inv_head in R10. rewrite Rl10 in Ha. rewrite R10 in Ha. exact (Fz9 a Ha). }
+      (* where the private cells of the parent come from *)
+      assert (Prov : forall a, In a (priv c') -> In a (priv c) \/ h_next h0 <=p a).
+      { intros a Ha. destruct Dj9 as [->|(Fr & _)]; [left; exact Ha|right].
+        rewrite Forall_forall in Fr. specialize (Fr a Ha). cbv beta in Fr. lia. }
+      (* the cells behind the new entries are nobody's private cells *)
+      assert (Fadd : forall b, In b (spec_cells h10 add_cs) -> ~ owned p b /\ ~ In b (priv c')).
+      { intros b Hb. unfold spec_cells in Hb. destruct (Q6 b Hb) as [H|H].
+        - split.
+          + intros Ho. pose proof (owned_lt _ Ho). destruct F79 as (F79' & _). lia.
+          + intros Hp'. unfold cwf, below in C9. rewrite Forall_forall in C9. specialize (C9 b Hp'). cbv beta in C9. lia.
+        - fold (spec_cells h9 sp) in H. rewrite Csp9 in H. pose proof (Fzsp b H) as Hno. split; [exact Hno|].
+          intros Hp'. destruct Dj9 as [->|(Fr & _)].
+          + apply Hno. exists id, c. split; assumption.
+          + rewrite Forall_forall in Fr. specialize (Fr b Hp'). cbv beta in Fr.
+            pose proof (spec_cells_below h7 sp W7 Bsp) as Hb7. unfold below in Hb7. rewrite Forall_forall in Hb7.
+            specialize (Hb7 b H). cbv beta in Hb7. lia. }
+      assert (K1' : hc_n w2 = c_n w2f) by exact K1.
+      assert (EB : add_body cf w0f m grp =
+                   if grp then Ok (app_spec c2f [Group (shift_spec m spf) m (m + c_n w2f - 1) (c_in w2f) (c_in w2f)])
+                   else Ok (app_spec c2f (shift_spec m spf))).
+      { unfold add_body. unfold cf at 1. cbn [abs_circ c_int]. rewrite Epf. reflexivity. }
+      destruct grp eqn:Egrp'.
+      - (* grouped: self.__circuit_spec.append(Group(add_cs, name, mode, mode + n - 1, new_heralds)) *)
+        destruct (halloc h10 (CList add_cs)) as [h11 lst] eqn:E11.
+        destruct (halloc_inv _ _ _ _ [] h0 E11 Q2 Q3 F010) as (-> & N11 & W11 & F011 & G11 & S11).
+        destruct (halloc h11 (CDict (rd_dict h11 (hc_in w2)))) as [h12 gi] eqn:E12.
+        destruct (halloc_inv _ _ _ _ [] h0 E12 W11 (Forall_nil _) F011) as (-> & N12 & W12 & F012 & G12 & S12).
+        destruct (halloc h12 (CDict (rd_dict h12 (hc_in w2)))) as [h13 go] eqn:E13.
+        destruct (halloc_inv _ _ _ _ [] h0 E13 W12 (Forall_nil _) F012) as (-> & N13 & W13 & F013 & G13 & S13).
+        rewrite (halloc_eta h13). cbv iota beta. cbn [fst snd].
+        assert (S1013 : hframe [] h10 h13).
+        { eapply hframe_trans; [exact S11|]. eapply hframe_trans; [exact S12|exact S13]. }
+        pose proof (hframe_agree _ _ S1013) as Ag1013.
+        assert (C13 : cwf h13 c') by (eapply cwf_mono; [apply S1013|exact C10]).
+        destruct (abs_circ_stable h10 h13 c' Q2 Ag1013 C10) as (A13 & R13).
+        assert (Rl13 : rd_list h13 (hc_spec c') = rd_list h10 (hc_spec c')).
+        { destruct (cwf_fields h10 c' C10) as (L1 & _). apply (rd_list_agree h10 h13 _ Ag1013 L1). }
+        assert (Fz13 : forall a, In a (spec_cells h13 (rd_list h13 (hc_spec c'))) -> ~ owned p a /\ ~ In a (priv c')).
+        { intros a Ha. unfold reach in R13. apply app_inv_head in R13. rewrite Rl13 in Ha. rewrite R13 in Ha. exact (Fz10 a Ha). }
+        set (gc := CComp (HGroup (h_next h10) m (m + hc_n w2 - 1) (h_next h11) (h_next h12))).
+        set (h14 := fst (halloc h13 gc)).
+        assert (G14 : hget h14 (h_next h13) = Some gc) by (unfold h14; rewrite hget_alloc, Pos.eqb_refl; reflexivity).
+        assert (Ag1314 : agree h13 h14).
+        { intros b Hb. unfold h14. rewrite hget_alloc. destruct (Pos.eqb_spec b (h_next h13)); [lia|reflexivity]. }
+        assert (Rlst : rd_list h14 (h_next h10) = add_cs).
+        { unfold rd_list. rewrite Ag1314 by lia. rewrite (hget_frame h12 h13 _ S13), (hget_frame h11 h12 _ S12) by lia.
+          rewrite G11. reflexivity. }
+        assert (Rin : forall hz, agree h7 hz -> rd_dict hz (hc_in w2) = c_in w2f).
+        { intros hz Az. destruct (cwf_fields h7 w2 C7) as (_ & L2 & _). rewrite (rd_dict_agree h7 hz _ Az L2). exact K2. }
+        assert (Ag711 : agree h7 h11).
+        { apply hframe_agree. eapply hframe_trans; [exact F79|]. eapply hframe_trans; [exact Q1|exact S11]. }
+        assert (Ag712 : agree h7 h12).
+        { apply hframe_agree. eapply hframe_trans; [exact F79|]. eapply hframe_trans; [exact Q1|].
+          eapply hframe_trans; [exact S11|exact S12]. }
+        assert (Rgi : rd_dict h14 (h_next h11) = c_in w2f).
+        { unfold rd_dict at 1. rewrite Ag1314 by lia. rewrite (hget_frame h12 h13 _ S13) by lia. rewrite G12.
+          apply Rin, Ag711. }
+        assert (Rgo : rd_dict h14 (h_next h12) = c_in w2f).
+        { unfold rd_dict at 1. rewrite Ag1314 by lia. rewrite G13. apply Rin, Ag712. }
+        assert (Ag1014 : agree h10 h14).
+        { intros b Hb. rewrite Ag1314 by (destruct S1013 as (S & _); lia). apply Ag1013, Hb. }
+        destruct (abs_list_stable h10 h14 add_cs Q2 Ag1014 Q3) as (Aadd14 & Cadd14).
+        (* the members are not groups: the added circuit was unpacked *)
+        assert (Nog : nogroup (shift_spec m spf)).
+        { unfold shift_spec. apply nogroup_map; [apply shift_is_group|].
+          assert (N0 : nogroup (add_sp0 w0f)).
+          { unfold add_sp0, w0f. assert (Nw : nogroup (c_spec (unpack_groups sf))) by (apply unpack_nogroup; exact Fls).
+            destruct (list_eqb _ _); [exact Nw|]. apply Forall_app. split; [exact Nw|]. constructor; [reflexivity|constructor]. }
+          change spf with (snd (w2f, spf)). rewrite <- Epf. unfold fpass.
+          apply (pass_fold_P o nogroup); [|exact N0].
+          intros t sp' Hs'. unfold aem_spec. apply nogroup_map; [apply aem_is_group|exact Hs']. }
+        assert (Mem : map (abs_comp 1 h14) add_cs = shift_spec m spf /\
+                      flat_map (comp_cells 1 h14) add_cs = spec_cells h10 add_cs).
+        { rewrite <- Aadd, <- Cadd14, <- Aadd14. unfold abs_list, spec_cells.
+          assert (Gm : forall a, In a add_cs -> is_group (abs_comp 1 h14 a) = false).
+          { intros a Ha. rewrite is_group_depth. unfold nogroup in Nog. rewrite <- Aadd, <- Aadd14 in Nog.
+            unfold abs_list in Nog. rewrite Forall_map, Forall_forall in Nog. exact (Nog a Ha). }
+          split; [apply map_ext_in|apply flat_map_ext_in]; intros a Ha; symmetry; apply (nongroup_depth h14 a (Gm a Ha)). }
+        destruct Mem as (Mem1 & Mem2).
+        assert (Eg : abs_comp 2 h14 (h_next h13) = Group (shift_spec m spf) m (m + c_n w2f - 1) (c_in w2f) (c_in w2f)).
+        { cbn [abs_comp]. rewrite G14. unfold gc. rewrite Rlst, Rgi, Rgo, Mem1, K1'. reflexivity. }
+        assert (Cg : comp_cells 2 h14 (h_next h13) =
+                     h_next h13 :: h_next h10 :: h_next h11 :: h_next h12 :: spec_cells h10 add_cs).
+        { cbn [comp_cells]. rewrite G14. unfold gc. rewrite Rlst, Mem2. reflexivity. }
+        assert (Lsp : hc_spec c' <p h_next h10) by (destruct (cwf_fields h10 c' C10) as (L1 & _); exact L1).
+        destruct (append_entry_gen h13 c' gc W13 C13 Sp9) as (J1 & J2 & J3 & J4 & J5).
+        + intros a Ha E. apply (proj2 (Fz13 a Ha)). rewrite E. unfold priv; simpl; auto.
+        + unfold gc. cbn [cell_addrs]. repeat constructor; lia.
+        + fold h14. rewrite Cg. intros b Hb E.
+          destruct Hb as [<-|[<-|[<-|[<-|Hb]]]]; try lia.
+          apply (proj2 (Fadd b Hb)). rewrite E. unfold priv; simpl; auto.
+        + cbv zeta in J1, J2, J3, J4, J5. fold h14 in J1, J2, J3, J4, J5.
+          set (h15 := h_append h14 (hc_spec c') (h_next h13)) in *.
+          split.
+          { unfold h15, h_append. apply hframe_write.
+            - unfold h14. apply hframe_alloc. apply hframe_nil. exact F013.
+            - destruct (Prov (hc_spec c')) as [H|H]; [unfold priv; simpl; auto|right; exact H|left; exact H]. }
+          split; [exact J1|]. split.
+          { apply EF. rewrite EB, J3, A13, A10, A9, Eg. reflexivity. }
+          split; [eapply cwf_mono; [|exact C13]; rewrite J2; lia|]. split; [exact Sp9|]. split; [exact Prov|].
+          intros a Ha. rewrite J4 in Ha. apply in_app_or in Ha as [Ha|Ha]; [exact (Fz13 a Ha)|].
+          fold h14 in Ha. rewrite Cg in Ha.
+          assert (Hp13 : forall x, In x (priv c') -> x <p h_next h10).
+          { intros x Hx. unfold cwf, below in C10. rewrite Forall_forall in C10. exact (C10 x Hx). }
+          assert (Hnew : forall x, h_next h10 <=p x -> ~ owned p x /\ ~ In x (priv c')).
+          { intros x Hx. split; [intros Ho; pose proof (owned_lt _ Ho); destruct F010 as (F & _); lia|].
+            intros Hp'. specialize (Hp13 x Hp'). lia. }
+          destruct Ha as [<-|[<-|[<-|[<-|Ha]]]]; try (apply Hnew; lia). exact (Fadd a Ha).
+      - (* not grouped: self.__circuit_spec = self.__circuit_spec + add_cs *)
+        cbn [fst snd].
+        assert (Bl10 : below h10 (rd_list h10 (hc_spec c') ++ add_cs)).
+        { apply Forall_app. split; [apply rd_list_below; exact Q2|exact Q3]. }
+        destruct (halloc h10 (CList (rd_list h10 (hc_spec c') ++ add_cs))) as [h11 spa] eqn:E11.
+        destruct (halloc_inv _ _ _ _ [] h0 E11 Q2 Bl10 F010) as (-> & N11 & W11 & F011 & G11 & S11).
+        cbn [fst snd].
+        pose proof (hframe_agree _ _ S11) as Ag1011.
+        assert (Rl : rd_list h11 (h_next h10) = rd_list h10 (hc_spec c') ++ add_cs) by (unfold rd_list at 1; rewrite G11; reflexivity).
+        destruct (abs_list_stable h10 h11 _ Q2 Ag1011 Bl10) as (Al11 & Cl11).
+        destruct (cwf_fields h10 c' C10) as (L1 & L2 & L3 & L4 & L5 & L6).
+        destruct Sp9 as (T1 & T2 & T3 & T4 & T5 & T6).
+        split; [apply hframe_nil; exact F011|]. split; [exact W11|]. split.
+        { apply EF. rewrite EB. f_equal. rewrite <- A9, <- A10.
+          unfold abs_circ, app_spec, set_spec, set_spec_ref.
+          cbn [c_n c_spec c_in c_out c_xin c_xout c_int hc_n hc_spec hc_in hc_out hc_xin hc_xout hc_int].
+          rewrite Rl, Al11. unfold abs_list. rewrite map_app. fold (abs_list h10 add_cs). rewrite Aadd.
+          rewrite !(rd_dict_agree h10 h11 _ Ag1011), (rd_nats_agree h10 h11 _ Ag1011) by assumption. reflexivity. }
+        split.
+        { unfold cwf, below, priv, set_spec_ref. cbn [hc_spec hc_in hc_out hc_xin hc_xout hc_int]. repeat constructor; lia. }
+        split.
+        { unfold sep_circ, set_spec_ref. cbn [hc_spec hc_in hc_out hc_xin hc_xout hc_int].
+          repeat split; try assumption. simpl. intros H. repeat (destruct H as [H|H]; [lia|]). exact H. }
+        split.
+        { intros a Ha. unfold priv, set_spec_ref in Ha. cbn [hc_spec hc_in hc_out hc_xin hc_xout hc_int] in Ha.
+          destruct Ha as [<-|Ha]; [right; destruct F010 as (F & _); lia|].
+          apply Prov. unfold priv. right. exact Ha. }
+        intros a Ha. unfold set_spec_ref in Ha. cbn [hc_spec] in Ha. rewrite Rl, Cl11 in Ha.
+        unfold spec_cells in Ha. rewrite flat_map_app in Ha.
+        assert (Hp10 : forall x, In x (priv c') -> x <p h_next h10).
+        { intros x Hx. unfold cwf, below in C10. rewrite Forall_forall in C10. exact (C10 x Hx). }
+        assert (Hb10 : a <p h_next h10).
+        { pose proof (spec_cells_below h10 _ Q2 Bl10) as Hb. unfold below in Hb. rewrite Forall_forall in Hb.
+          apply Hb. unfold spec_cells. rewrite flat_map_app. exact Ha. }
+        assert (Hfin : (~ owned p a /\ ~ In a (priv c')) -> ~ owned p a /\ ~ In a (priv (set_spec_ref c' (h_next h10)))).
+        { intros (H1 & H2). split; [exact H1|]. unfold priv, set_spec_ref. cbn [hc_spec hc_in hc_out hc_xin hc_xout hc_int].
+          intros [E|H]; [lia|]. apply H2. unfold priv. right. exact H. }
+        apply Hfin. apply in_app_or in Ha as [Ha|Ha]; [exact (Fz10 a Ha)|exact (Fadd a Ha)].
+    Qed.
   End Add.
 End HeapP6.
